@@ -59,6 +59,9 @@ def undecoded(kind, tid=1):
         return E.ev('MACH_vm_page_release', 0, (1, 2, 3, 4), tid=tid)
     if kind == 'U':
         return E.ev(0xdead0000, 0, (1, 2, 3, 4), tid=tid)
+    if kind == 'S':
+        # the START of another call of the same thread whose END never arrives
+        return E.ev('BSC_getppid', 1, (1, 2, 3, 4), tid=tid)
     if kind == 'X':
         return E.ev('TRACE_DATA_THREAD_TERMINATE', 0, (tid, 0, 0, 0), tid=tid)     # the thread's own terminate record
     if kind == 'L':
@@ -138,9 +141,15 @@ def variants(label, win):
         for i in range(n + 1):
             yield ('drop-prefix', i), win[i:]
     if label == 'generic':
+        # the call is started, another call is started (never ended), the call is started AGAIN (its first END was lost)
+        yield ('reopen', 'ordinary'), [win[0], undecoded('S'), win[0]] + win[1:]
+        yield ('reopen', 'trace-domain'), [win[0], E.ev('TRACE_STRING_GLOBAL', 1, data=B.global_string_chunks(0, 901, 'x' * 40)[0][0]), win[0]] + win[1:]
+        # 50 lookups whose END records were lost pile up in the window (24 text bytes each, whole 3-byte characters), then a complete one
+        pile = [E.ev('VFS_LOOKUP', 1, data=B.le(0x300 + k, 8) + ('\u20ac' * 8).encode()) for k in range(50)]
+        yield ('piled-up-unterminated-lookups',), [win[0]] + pile + win[1:]
         for i in range(n):
             yield ('dup', i), win[:i + 1] + [win[i]] + win[i + 1:]
-        for kind in ('K', 'U', 'W', 'T', 'D', 'X', 'L'):
+        for kind in ('K', 'U', 'W', 'T', 'D', 'X', 'L', 'S'):
             for i in range(n + 1):
                 yield ('ins', kind, i), win[:i] + [undecoded(kind)] + win[i:]
 
@@ -205,7 +214,7 @@ class C07(Check):
             'and family-specific windows (dyld string announcement present/empty, DATA+STRING pairs, page fault with every '
             'ordered pair of nested real-fault kinds incl. the undecoded one, sampler windows x flag sets x stack-header flag sets, launch window, launch window with several images at one load address) x word '
             'sets {junk, failing END, zeros, all-ones, small} (quick: junk, fail, zeros) x every subset of the window dropped '
-            '(<=2^9), every single duplication, every insertion of one undecoded/unrelated/kernel-trace-data/look-alike/own-thread-terminate/lost-events record at every position, lone '
+            '(<=2^9), every single duplication, every insertion of one undecoded/unrelated/kernel-trace-data/look-alike/own-thread-terminate/lost-events record or never-ended START of another call at every position, the call re-started after another call was opened inside it, 50 unterminated lookups piled up in the window, lone '
             'NONE/ALL, windows with 3 and 6 lookups with every dropped prefix; windows of 2^k-2..2^k+2 stand-alone records (k=6..13) before another call starts; every enum member in the zero-omission window (thorough: the whole fault enumeration for 4 different members of every enum-valued word). '
             'Oracle: feed_generator consumes the history and str() of every emitted trace returns. non-trivial = at least one '
             'event of the window was dropped, duplicated or inserted. Distinct by construction.')
